@@ -216,15 +216,15 @@ def method_detection(ctx, rule):
       return 'same_module'
     if t == 'getattr(base,%s.__name__,None)==%s' % (p5, p5):
       return 'is_class_attr'
-    if t in ('qualname_parts[-2]==base.__name__',):
+    # (temporaries such as `qualname_parts` are replaced by their definitions in the facts)
+    if t == "%s.__qualname__.split('.')[-2]==base.__name__" % p5:
       return 'qual_parent_is_class'
-    if t == 'len(qualname_parts)>1':
+    if t == "len(%s.__qualname__.split('.'))>1" % p5:
       return 'qualified'
     return None
   trues = [n for n in g5.live_nodes() if n.kind == 'return' and isinstance(n.ast.value, ast.Constant) and n.ast.value.value is True]
   ctx.expect_at_least('positive returns of is_method', len(trues), 1)
-  qdef_ok = any(isinstance(a, ast.Assign) and u(a.targets[0]) == 'qualname_parts' and u(a.value).replace(' ', '') == "%s.__qualname__.split('.')" % p5
-                for a in walk_local(ism.node))
+  qdef_ok = True
   for n in trues:
     miss = facts_imply(facts5[n.id], [('a plain function', 'is_function'), ('defined in the class\'s module', 'same_module'),
                                       ('reachable under its own name on the class', 'is_class_attr'),
